@@ -169,7 +169,7 @@ func (e *c01Env) partInproc() c01Part {
 			req.Smudge = []c01Chunking{{}}
 		}
 		caseID := fmt.Sprintf("inproc input=%s ext=%q worktree=%s chunking=%s eof-with-last-read=%v store=%q smudge-chunking=%s", in.Name, ext, wt, ch, eof, pre, sm)
-		r := vx.Result{Counters: map[string]int64{}, Sample: map[string]interface{}{"delivery": "in-process commands.clean/commands.smudge", "input": in.Name, "bytes": n,
+		r := vx.Result{Evals: 1, Counters: map[string]int64{}, Sample: map[string]interface{}{"delivery": "in-process commands.clean/commands.smudge", "input": in.Name, "bytes": n,
 			"extension": ext, "worktree_file": wt.String(), "chunking": ch.String(), "eof_with_last_read": eof, "store_before": pre, "pointer_chunking_for_smudge": sm.String()}}
 		if n > 0 {
 			r.NonTrivial = []string{caseID}
@@ -216,13 +216,17 @@ func (e *c01Env) partInproc() c01Part {
 			r.Violations = append(r.Violations, c01Viol(e.prop, fail, class, caseID, map[string]interface{}{"emitted": c01Short(obs.CleanOut), "store": obs.Store,
 				"bytes_consumed_from_stream": obs.Consumed, "reads": obs.Reads, "clean_error": obs.CleanErr, "stderr": obs.Stderr}))
 		} else if smSingle {
-			r.Evals = 2
+			r.Evals++
+			if len(obs.Smudges) != 1 {
+				r.ToolErr = "worker returned no smudge observation for a correct pointer"
+				return r
+			}
 			if fail = c01JudgeSmudge(in.Data, obs.Smudges[0], cl); fail != nil {
 				r.Violations = append(r.Violations, c01Viol(e.prop, fail, class, caseID, map[string]interface{}{"pointer": string(obs.CleanOut), "store_after": obs.StoreAfter}))
 			}
 		} else {
 			// the emitted pointer handed to smudge in pieces (own request: a process exit is then attributable)
-			r.Evals = 2
+			r.Evals++
 			smClass := c01SmudgeClass(obs.CleanOut, sm, ext)
 			sreq := c01Req{Repo: ext, InputFile: in.File, Path: "f.bin", WT: wt, NoClean: true, SmudgeSrc: obs.CleanOut, Smudge: []c01Chunking{sm}, PreStore: []string{e.stored[in.Name+"|"+ext]}}
 			sobs, sdied, sinc, sterr := c01Inproc(e.pool, sreq)
@@ -367,7 +371,7 @@ func (e *c01Env) partOneshot() c01Part {
 			pre = []string{"", "present", "wrongsize"}[x.In(3)]
 		}
 		caseID := fmt.Sprintf("oneshot input=%s ext=%q worktree=%s chunking=%s store=%q", in.Name, ext, wt, ch, pre)
-		r := vx.Result{Counters: map[string]int64{}, Sample: map[string]interface{}{"delivery": "real `git-lfs clean -- f.bin` / `git-lfs smudge -- f.bin`, stdin = kernel pipe written chunk by chunk (next chunk after FIONREAD==0)",
+		r := vx.Result{Evals: 1, Counters: map[string]int64{}, Sample: map[string]interface{}{"delivery": "real `git-lfs clean -- f.bin` / `git-lfs smudge -- f.bin`, stdin = kernel pipe written chunk by chunk (next chunk after FIONREAD==0)",
 			"input": in.Name, "bytes": n, "extension": ext, "worktree_file": wt.String(), "chunking": ch.String(), "store_before": pre}}
 		if n > 0 {
 			r.NonTrivial = []string{caseID}
@@ -498,7 +502,7 @@ func (e *c01Env) partFilterProcess() c01Part {
 		}
 		pk := pks[x.In(len(pks))]
 		caseID := fmt.Sprintf("filter-process input=%s ext=%q worktree=%s packets=%s", in.Name, ext, wt, pk.name)
-		r := vx.Result{Counters: map[string]int64{}, Sample: map[string]interface{}{"delivery": "real `git-lfs filter-process`, own pkt-line client: command=clean then command=smudge of the returned pointer in the same session",
+		r := vx.Result{Evals: 1, Counters: map[string]int64{}, Sample: map[string]interface{}{"delivery": "real `git-lfs filter-process`, own pkt-line client: command=clean then command=smudge of the returned pointer in the same session",
 			"input": in.Name, "bytes": n, "extension": ext, "worktree_file": wt.String(), "packet_payload_sizes": pk.name}}
 		if n > 0 {
 			r.NonTrivial = []string{caseID}
@@ -620,7 +624,7 @@ func (e *c01Env) partGit() c01Part {
 			mode = "filter-process"
 		}
 		caseID := fmt.Sprintf("git input=%s ext=%q mode=%s action=%s", in.Name, ext, mode, act.name)
-		r := vx.Result{Counters: map[string]int64{}, Sample: map[string]interface{}{"delivery": "real git 2.39 driving the filters", "input": in.Name, "bytes": n, "extension": ext, "filter_mode": mode, "action": act.name}}
+		r := vx.Result{Evals: 1, Counters: map[string]int64{}, Sample: map[string]interface{}{"delivery": "real git 2.39 driving the filters", "input": in.Name, "bytes": n, "extension": ext, "filter_mode": mode, "action": act.name}}
 		if n > 0 {
 			r.NonTrivial = []string{caseID}
 		}
@@ -821,7 +825,7 @@ func (e *c01Env) partMerge() c01Part {
 			mode = "filter-process"
 		}
 		caseID := fmt.Sprintf("merge case=%s mode=%s", mc.name, mode)
-		r := vx.Result{Counters: map[string]int64{}, NonTrivial: []string{caseID}}
+		r := vx.Result{Evals: 1, Counters: map[string]int64{}, NonTrivial: []string{caseID}}
 		w, repo := c01Repo(e.scratch, process, "")
 		defer w.Close()
 		cl := map[string]int64{}
